@@ -63,7 +63,7 @@ ASSUMPTIONS = [
     "cache_only optimizer on the directory raises KeyError for it (no entry file survives)",
 ]
 REQUIRED_MONITORS = ["queries", "hits", "misses", "repeat_same_order", "tree_of_query", "sliced_as_stored", "score_as_stored",
-                     "sharing_events", "permuted_share", "fresh_object_reload", "fresh_process_reload", "cache_only", "improved_monotone", "compressed_answers",
+                     "sharing_events", "permuted_share", "fresh_object_reload", "fresh_process_reload", "cache_only", "cache_only_x_overwrite", "improved_monotone", "compressed_answers",
                      "update_ops", "update_stored_as_supplied", "update_kept_old", "update_then_hit", "update_fresh_object", "update_sliced",
                      "update_cache_only", "cleanup_ops", "cleanup_forgets", "post_cleanup_queries", "auto_dir_same_options_share", "auto_dir_other_options_separate"]
 SHARD_TIMEOUT = {"quick": 500, "thorough": 3600}
@@ -80,9 +80,13 @@ def classify(v):
     w = v["witness"]
     if w.get("cfg", {}).get("hash_method") != "b":
         return None
+    d = v.get("detail") or w.get("detail") or {}
+    if d.get("shared_with_other") and d.get("differ_in_index_free_terms_only") and d.get("same_size_dict"):
+        # the entry of a contraction with another NUMBER of tensors: however the wrong answer shows (invalid path,
+        # IndexError while rebuilding the tree, another order / tree after a reload), the mechanism is this one
+        return "hash-b-ignores-index-free-terms"
     if v["kind"] not in ("sharing_invalid", "score_as_stored", "sliced_as_stored"):
         return None
-    d = v.get("detail") or w.get("detail") or {}
     if d.get("shared_with_other") and d.get("same_size_dict") and d.get("same_topology_up_to_relabelling") and not d.get("same_network"):
         return "hash-b-sizes-by-label"
     return None
@@ -121,8 +125,26 @@ def variants(rng, base):
     sd = dict(base.size_dict)
     sd["Z"] = 7
     out.append(("extra_size_entry", gen.Net(base.inputs, base.output, sd, base.cls)))
+    # one more index-free (scalar) tensor: a different contraction (another number of tensors)
+    out.append(("extra_scalar", gen.Net(list(base.inputs) + [()], base.output, base.size_dict, base.cls)))
     keep = [out[0]] + rng.sample(out[1:], rng.randint(2, len(out) - 1))
     return keep
+
+
+def share_detail(other, net):
+    """how the contraction that created a shared entry relates to the one now asking"""
+    return {
+        "shared_with_other": True, "same_network": False,
+        "same_size_dict": other.size_dict == net.size_dict,
+        "same_topology_up_to_relabelling": topo(other) == topo(net),
+        "merely_permuted": merely_permuted(other, net),
+        # the two differ in the number of index-free (scalar) tensors only
+        "differ_in_index_free_terms_only": (
+            other.N != net.N
+            and len([t for t in other.inputs if t]) == len([t for t in net.inputs if t])
+            and topo(other) == topo(net)
+        ),
+    }
 
 
 def exact_key(net):
@@ -365,6 +387,8 @@ def update_step(rep, case, cfg, opt, counter, directory, step, qi, tag, net, op,
     h_of[hk] = h
     ek = exact_key(net)
     old_con = None if missing else dict(opt._cache[h])
+    # an entry that is kept may be another contraction's (shared key): say so in the witness
+    shared = share_detail(creators[hk], net) if (not missing and hk in creators and exact_key(creators[hk]) != exact_key(net)) else {}
     before = counter["searches"]
     try:
         opt.update_from_tree(tree, overwrite=op["overwrite"])
@@ -420,10 +444,10 @@ def update_step(rep, case, cfg, opt, counter, directory, step, qi, tag, net, op,
         try:
             t2 = o2.search(net.inputs, net.output, net.size_dict)
         except Exception as e:
-            return ("reload", step, f"{where}: a fresh optimizer on the same directory cannot answer the contraction: {type(e).__name__}: {e}", {})
+            return ("reload", step, f"{where}: a fresh optimizer on the same directory cannot answer the contraction: {type(e).__name__}: {e}", shared)
         rep.mon("update_fresh_object")
         if nodes_of(net.N, t2.get_path()) != nodes_of(net.N, con["path"]) or set(t2.sliced_inds) != set(con["sliced_inds"]):
-            return ("reload", step, f"{where}: a fresh optimizer on the same directory reconstructs a different tree from the entry", {})
+            return ("reload", step, f"{where}: a fresh optimizer on the same directory reconstructs a different tree from the entry", shared)
     return None
 
 
@@ -510,12 +534,7 @@ def run_history(rep, case, workdir):
         detail = {}
         if not missing and hk in creators and exact_key(creators[hk]) != exact_key(net):
             other = creators[hk]
-            detail = {
-                "shared_with_other": True, "same_network": False,
-                "same_size_dict": other.size_dict == net.size_dict,
-                "same_topology_up_to_relabelling": topo(other) == topo(net),
-                "merely_permuted": merely_permuted(other, net),
-            }
+            detail = share_detail(other, net)
             rep.mon("sharing_events")
             if detail["merely_permuted"]:
                 rep.mon("permuted_share")
@@ -633,17 +652,21 @@ def run_history(rep, case, workdir):
         for (tag, net), r in zip(pool, res):
             h, missing = opt.hash_query(net.inputs, net.output, net.size_dict)
             rep.mon("fresh_process_reload")
+            fdetail = {}
+            other = creators.get(repr(h))
+            if other is not None and exact_key(other) != exact_key(net):
+                fdetail = share_detail(other, net)
             if missing:
                 if r["ok"]:
                     return ("reload", len(case["queries"]), f"fresh process answered {tag} which was never stored", {})
                 continue
             if not r["ok"]:
-                return ("reload", len(case["queries"]), f"fresh process could not read the entry for {tag}: {r['err']}", {})
+                return ("reload", len(case["queries"]), f"fresh process could not read the entry for {tag}: {r['err']}", fdetail)
             con = opt._cache[h]
             if cfg["kind"] == "hyper-compressed" and r.get("cls") != "ContractionTreeCompressed":
-                return ("reload", len(case["queries"]), f"fresh process rebuilt a {r.get('cls')} for {tag}", {})
+                return ("reload", len(case["queries"]), f"fresh process rebuilt a {r.get('cls')} for {tag}", fdetail)
             if [list(p) for p in con["path"]] != r["path"] or set(con["sliced_inds"]) != set(r["sliced"]) or not r["complete"] or r["n"] != net.N:
-                return ("reload", len(case["queries"]), f"fresh process reconstructs a different tree for {tag}", {})
+                return ("reload", len(case["queries"]), f"fresh process reconstructs a different tree for {tag}", fdetail)
     return None
 
 
@@ -710,6 +733,12 @@ def run_case(rep, case):
             # second phase: cache_only over the same directory with a new object
             case2 = dict(case, cfg=dict(case["cfg"], cache_only=True, overwrite=False), fresh_process=False)
             res = run_history_existing(rep, case2, workdir)
+        if res is None and case["cfg"]["directory"]:
+            # third phase: cache_only crossed with a truthy overwrite policy - "cache_only never searches"
+            # whatever the other options say
+            ow = rng_for(case["case_seed"], "co_overwrite").choice([True, "improved"])
+            case3 = dict(case, cfg=dict(case["cfg"], cache_only=True, overwrite=ow), fresh_process=False)
+            res = cache_only_with_overwrite(rep, case3, workdir)
         return res
     finally:
         shutil.rmtree(workdir, ignore_errors=True)
@@ -753,6 +782,40 @@ def run_history_existing(rep, case, workdir):
         rep.mon("cache_only")
         if counter["searches"]:
             return ("cache_only_searched", qi, f"cache_only pass: a search ran for {tag}", {})
+    return None
+
+
+def cache_only_with_overwrite(rep, case, workdir):
+    """cache_only=True together with overwrite=True / 'improved' over an existing directory: every query is
+    either refused (KeyError) or answered with the stored order; no search runs and no stored entry changes."""
+    cfg = case["cfg"]
+    pool = [(tag, gen.Net.from_json(j)) for tag, j in case["pool"]]
+    counter = {"searches": 0}
+    opt = make_opt(cfg, os.path.join(workdir, "cache"), counter)
+    for qi, (tag, net) in enumerate(pool):
+        h, missing = opt.hash_query(net.inputs, net.output, net.size_dict)
+        before = None if missing else dict(opt._cache[h])
+        where = f"cache_only x overwrite={cfg['overwrite']!r} pass: {tag}"
+        try:
+            if qi % 2:
+                path = opt(net.inputs, net.output, net.size_dict)
+            else:
+                path = opt.search(net.inputs, net.output, net.size_dict).get_path()
+            if missing:
+                return ("cache_only_searched", qi, f"{where} was missing but an answer came back", {})
+            if tuple(map(tuple, path)) != tuple(map(tuple, before["path"])):
+                return ("cache_only_searched", qi, f"{where}: the answer is not the stored contraction order", {})
+        except KeyError:
+            pass
+        except Exception as e:
+            return ("raises", qi, f"{where}: {type(e).__name__}: {e}", {})
+        rep.mon("cache_only_x_overwrite")
+        if counter["searches"]:
+            return ("cache_only_searched", qi, f"{where}: a search ran", {})
+        _, missing2 = opt.hash_query(net.inputs, net.output, net.size_dict)
+        after = None if missing2 else dict(opt._cache[h])
+        if after != before:
+            return ("cache_only_searched", qi, f"{where}: the stored entry changed", {})
     return None
 
 
